@@ -4,8 +4,15 @@
 //! trusted: R15 (deep slice): the aggregation loop nest of update_claims_view_from_requests verbatim as a function of the request vector; the two tests of the time-lock split are extracted as two further slices; duplicate filtering before it and claim generation after it are dropped and not claimed
 //! trusted: R15 (deep slices): update_claims_view_from_matched_txn: the body of `if at_least_one_drop { .. }` (the statement that records the split request as a bump candidate and the removal of its pending claim events) and the body of the loop that reschedules requests whose timer expired, verbatim, as functions of the candidate map, the claim id and the request; the `#[cfg(debug_assertions)]` counting assertions are dropped (cfg debug_assertions=false for these two extracts); the candidate map is an environment type: insert/remove have the std contracts, the entry API is over-approximated (key present afterwards, present values unchanged, absent value unconstrained); matching confirmed inputs to requests, split_package, the ANTI_REORG_DELAY bookkeeping and generate_claim are dropped and not claimed
 //! trusted: R6: `for i in (1..requests.len()).rev() { B }` becomes a down-counting while loop over the range evaluated once (std semantics of Range/Rev), `for j in 0..i` a counting loop; `requests[j].merge_package(..)` is written `requests.get_mut(j).unwrap().merge_package(..)` (IndexMut) with its result bound to a temporary before the `if let` so that proof hints can sit between (R9, same evaluation order); PackageTemplate is a stub with a ghost input count; can_merge_with is external_body with an unconstrained answer; merge_package is external_body with the contract proved for the real function in unit u07 (Ok: inputs are concatenated; Err: self unchanged and the argument handed back) - its pkg_wf precondition is not re-established here (assumed preserved by merging)
+//! trusted: assume_specification for core::cmp::max / core::cmp::min (std definitions): present in every unit so that a change that introduces them is verified instead of being rejected by the tool
 use vstd::prelude::*;
 verus! {
+use vstd::std_specs::cmp::*;
+use core::cmp;
+pub assume_specification<T: core::cmp::Ord>[core::cmp::max::<T>](a: T, b: T) -> (r: T)
+    ensures T::obeys_cmp_spec() ==> r == (if b.cmp_spec(&a) == core::cmp::Ordering::Less { a } else { b });
+pub assume_specification<T: core::cmp::Ord>[core::cmp::min::<T>](a: T, b: T) -> (r: T)
+    ensures T::obeys_cmp_spec() ==> r == (if b.cmp_spec(&a) == core::cmp::Ordering::Less { b } else { a });
 pub struct PackageTemplate { pub n_inputs: Ghost<int> }
 impl PackageTemplate {
     #[verifier::external_body] pub fn can_merge_with(&self, other: &PackageTemplate, cur_height: u32) -> (r: bool) { unimplemented!() }
